@@ -270,6 +270,13 @@ def worker(arg):
                 viol.append(("success:handler-called:%s" % emitter, "successful call invoked the error handler: %s" % line, line))
             if r["oneshot"]:
                 viol.append(("success:left-one-shot-state:%s" % emitter, "successful call left one-shot state: %s" % line, line))
+            lead = c["ops"][:next((i for i, op in enumerate(c["ops"]) if op[0] in ("N", "Rn")), len(c["ops"]))]   # operands behind a gap (none / undefined register type) are a known class
+            bad_field = [("segment", op[1]["seg"]) for op in lead if op[0] == "M" and op[1]["seg"] > 6] + \
+                        [("broadcast", op[1]["bcst"]) for op in lead if op[0] == "M" and op[1]["bcst"] > 6]
+            if bad_field:
+                # segment ids 1..6 are ES..GS, broadcasts 1..6 are {1to2}..{1to64}: 7 names nothing in either field
+                viol.append(("success:undefined-%s-id-accepted:%s" % (bad_field[0][0], emitter),
+                             "a memory operand with %s id %d (undefined) was accepted%s: %s" % (bad_field[0][0], bad_field[0][1], " and %s appended" % r["bytes"] if r.get("bytes") else "", line), line))
             if emitter == "asm":
                 if standard(c) and not c["name"].startswith("#") and not (c["opts"] & (G.OPT_MODMR | G.OPT_MODRM)):
                     cands = xdec.candidates(c, byname, mode)
